@@ -1986,18 +1986,36 @@ class EAItemMove(ElementAction):
             raise MosMergeError(
                 f"{self.__class__.__name__} error in {self.message_id} - story not found"
             )
-        target_item, target_item_index = find_child(parent=story, child_tag='item', id=self.item.id)
-        if target_item is None:
-            raise MosMergeError(
-                f"{self.__class__.__name__} error in {self.message_id} - target item not found"
-            )
-        for i, source_item in enumerate(self.items, start=target_item_index):
+        # check every reference before changing anything
+        target_item = None
+        if self.item.id is not None:
+            target_item, target_item_index = find_child(parent=story, child_tag='item', id=self.item.id)
+            if target_item is None:
+                raise MosMergeError(
+                    f"{self.__class__.__name__} error in {self.message_id} - target item not found"
+                )
+        items = []
+        for source_item in self.items:
             item, item_index = find_child(parent=story, child_tag='item', id=source_item.id)
             if item is None:
                 raise MosMergeError(
                     f"{self.__class__.__name__} error in {self.message_id} - source item not found"
                 )
+            if item is target_item or item in items:
+                raise MosMergeError(
+                    f"{self.__class__.__name__} error in {self.message_id} - item listed more than once"
+                )
+            items.append(item)
+
+        for item in items:
             remove_node(parent=story, node=item)
+        if target_item is None:
+            # a blank itemID means "move to the end of the story"
+            target_item_index = len(story)
+        else:
+            target_item_index = list(story).index(target_item)
+        # the moved items go in front of the target item, in the order given
+        for i, item in enumerate(items, start=target_item_index):
             insert_node(parent=story, node=item, index=i)
         return ro
 
